@@ -113,19 +113,33 @@ def to_dt(v):
 
 
 def next_occurrence_skipped(sp, now, then):
-    '''is there a moment matching the specification in [now, then) ?  (the
-    sharp form of "no further than one period ahead")'''
+    '''the first moment >= now that matches the specification, when it lies
+    strictly before `then` (the sharp form of "no further than one period
+    ahead"); None when nothing is skipped'''
     t = datetime.time(*sp['time'])
-    day = now.date()
-    for _ in range(800):
+    if now.year >= 9999:
+        return None       # outside the span of the property
+    if 'dow' in sp:
+        day = now.date() + datetime.timedelta(days=(sp['dow'] - (now.isoweekday() - 1)) % 7)
         cand = datetime.datetime.combine(day, t, tzinfo=datetime.UTC)
-        if cand >= then:
+        if cand < now:
+            cand += datetime.timedelta(days=7)
+    else:
+        y, m = now.year, now.month
+        cand = None
+        for _ in range(14):
+            if y > 9999:
+                return None
+            if sp['dom'] <= dim(y, m):
+                cand = datetime.datetime(y, m, sp['dom'], t.hour, t.minute, t.second,
+                                         tzinfo=datetime.UTC)
+                if cand >= now:
+                    break
+                cand = None
+            y, m = (y + 1, 1) if m == 12 else (y, m + 1)
+        if cand is None:
             return None
-        ok = (cand.isoweekday() - 1 == sp['dow']) if 'dow' in sp else (cand.day == sp['dom'])
-        if ok and cand >= now:
-            return cand
-        day += datetime.timedelta(days=1)
-    return None
+    return cand if cand < then else None
 
 
 def classify_delay(ctx, sp, nowv, got):
